@@ -184,3 +184,35 @@ package engine
 //@             (newpremises[i] as ast.TemporalLiteral).Interval == (rule.Premises[i] as ast.TemporalLiteral).Interval &&
 //@             (newpremises[i] as ast.TemporalLiteral).Literal is ast.Atom &&
 //@             ((newpremises[i] as ast.TemporalLiteral).Literal as ast.Atom) == makeDeltaAtom((rule.Premises[i] as ast.TemporalLiteral).Literal as ast.Atom)
+
+// ---- C02: a do-transform reduces exactly the rows of each group ------------------------------------------------
+// groupKeyString is a function of the key (ASSUMED deterministic; its injectivity is NOT assumed here).
+//@ func groupKeyString(keys)
+//@   pure
+//@   trusted
+//@   modifies nothing
+
+// Grouping loop: every group holds rows of the input, in input order, each recorded with its position; every row
+// processed so far sits in the group filed under its own key string. Reduction loop: it is left early only with an
+// error, so every group is reduced and emitted.
+//@ spec func groupOK(g grouped, input []ast.ConstSubstList, n int) bool =
+//@      len(g.values) == len(g.indices) && len(g.values) >= 1 &&
+//@      (forall j int :: 0 <= j && j < len(g.indices) ==> 0 <= g.indices[j] && g.indices[j] < n && g.values[j] == input[g.indices[j]]) &&
+//@      (forall j int, k int :: 0 <= j && j < k && k < len(g.indices) ==> g.indices[j] < g.indices[k])
+
+// The key string of a row: ASSUMED that groupKeyString depends only on the elements of the key, so the string of the
+// key built from a row is a function of the group-by arguments and the row.
+//@ spec func keyStrOf(args []ast.BaseTerm, s ast.ConstSubstList) string
+//@ axiom keyStrDef(key []ast.Constant, args []ast.BaseTerm, s ast.ConstSubstList):
+//@   len(key) == len(args) && (forall i int :: 0 <= i && i < len(args) ==> args[i] is ast.Variable && s.Get(args[i] as ast.Variable) is ast.Constant && key[i] == (s.Get(args[i] as ast.Variable) as ast.Constant)) ==> groupKeyString(key) == keyStrOf(args, s)
+//@   auto
+
+//@ func evalDo(head, transform, input, inputFacts, emit)
+//@   opt nosafety
+//@   loop 1 invariant keyToGroup != nil
+//@   loop 1 invariant forall h string :: h in keyToGroup ==> groupOK(keyToGroup[h], input, rangeindex + 1)
+//@   loop 1 invariant forall r int :: 0 <= r && r < rangeindex + 1 ==> keyStrOf(doStmt.Fn.Args, input[r]) in keyToGroup && (exists j int :: 0 <= j && j < len(keyToGroup[keyStrOf(doStmt.Fn.Args, input[r])].indices) && keyToGroup[keyStrOf(doStmt.Fn.Args, input[r])].indices[j] == r)
+//@   loop 2 invariant len(key) == len(doStmt.Fn.Args) && keyLen == len(doStmt.Fn.Args)
+//@   loop 2 invariant forall i int :: 0 <= i && i < rangeindex#2 + 1 ==> doStmt.Fn.Args[i] is ast.Variable && subst.Get(doStmt.Fn.Args[i] as ast.Variable) is ast.Constant && key[i] == (subst.Get(doStmt.Fn.Args[i] as ast.Variable) as ast.Constant)
+//@   guard return in loop 3: err != nil
+//@   guard call EvalReduceFn in loop 3: arg1 == group#2.values
